@@ -345,6 +345,20 @@ func ruleE1LockOnly(c *Ctx) []Ob {
 						s.bad(shortFn(fn)+":desc-addr", c.InstrPos(x), "address of descriptor field "+path(fa)+" is passed to "+calleeShort(x)+" on a path that does not hold "+mu+": the shared descriptor may be written while other goroutines read it")
 					case *ssa.Store:
 						nChecked++
+						// the function holds the lock itself at this point (the finishing steps of a build written out in the
+						// function that took the lock)
+						heldHere := false
+						for site := range locked {
+							if site.Parent() == fn {
+								if lk := lockCallIn(fn, mu); lk != nil && instrDominates(lk, x) {
+									heldHere = true
+								}
+							}
+						}
+						if heldHere {
+							s.ok(shortFn(fn)+":desc-store", c.InstrPos(x), "store into a descriptor field with "+mu+" held by this function")
+							continue
+						}
 						if x.Addr == ssa.Value(fa) {
 							s.bad(shortFn(fn)+":desc-store", c.InstrPos(x), "store into shared descriptor field "+path(fa)+" outside the locked build: "+c.srcLine(x.Pos()))
 						} else {
@@ -706,6 +720,7 @@ func ruleE3(c *Ctx) []Ob {
 	// (1) in every function that starts a build: every path from the build call to a return passes a call that empties the
 	// journals; on the failure edge that call also undoes the journalled inserts and links, on the success edge it does not
 	var finishers []*ssa.Function
+	inlineFinBlocks := map[*ssa.BasicBlock]bool{}
 	for _, tx := range txs {
 		var bcall *ssa.Call
 		for _, b := range tx.Blocks {
@@ -730,7 +745,27 @@ func ruleE3(c *Ctx) []Ob {
 				}
 			}
 		}
+		// the finishing steps written out in this function: a block that truncates both journals itself
+		inlineFin := map[*ssa.BasicBlock]bool{}
+		for _, b := range tx.Blocks {
+			tr := map[string]bool{}
+			for _, ins := range b.Instrs {
+				if st, ok := ins.(*ssa.Store); ok {
+					if g, ok := st.Addr.(*ssa.Global); ok && isJournal(globalKey(g)) && isTruncation(st.Val) {
+						tr[globalKey(g)] = true
+					}
+				}
+			}
+			if tr[journals[0]] && tr[journals[1]] {
+				if _, has := fin[b]; !has {
+					fin[b] = jEffect{trunc: tr}
+					inlineFin[b] = true
+					inlineFinBlocks[b] = true
+				}
+			}
+		}
 		var errEdge, okEdge *ssa.BasicBlock // successors of the test of the build's error
+		var errTestBlock *ssa.BasicBlock
 		for _, r := range referrers(bcall) {
 			ex, ok := r.(*ssa.Extract)
 			if !ok || !isErrorType(ex.Type()) {
@@ -743,6 +778,11 @@ func ruleE3(c *Ctx) []Ob {
 				}
 				for _, r3 := range referrers(bo) {
 					if iff, ok := r3.(*ssa.If); ok {
+						// the first test after the build (the error may be tested again after a written-out finish)
+						if errTestBlock != nil && !(iff.Block().Dominates(errTestBlock) && iff.Block() != errTestBlock) {
+							continue
+						}
+						errTestBlock = iff.Block()
 						t, f := iff.Block().Succs[0], iff.Block().Succs[1]
 						if bo.Op == token.NEQ {
 							errEdge, okEdge = t, f
@@ -763,6 +803,7 @@ func ruleE3(c *Ctx) []Ob {
 			seen := map[*ssa.BasicBlock]bool{}
 			st := []*ssa.BasicBlock{b}
 			var via *jEffect
+			var viaBlock *ssa.BasicBlock
 			viaName := ""
 			for len(st) > 0 {
 				x := st[len(st)-1]
@@ -774,7 +815,12 @@ func ruleE3(c *Ctx) []Ob {
 				if e, ok := fin[x]; ok {
 					e := e
 					via = &e
-					viaName = finFn[x].Name()
+					if inlineFin[x] {
+						viaName = "the statements at " + c.Pos(firstPos(x))
+						viaBlock = x
+					} else {
+						viaName = finFn[x].Name()
+					}
 					continue
 				}
 				if x == bcall.Block() {
@@ -788,6 +834,78 @@ func ruleE3(c *Ctx) []Ob {
 			onErr := errEdge != nil && (errEdge == b || errEdge.Dominates(b)) && len(errEdge.Preds) == 1
 			onOK := okEdge != nil && (okEdge == b || okEdge.Dominates(b)) && len(okEdge.Preds) == 1
 			key := shortFn(tx) + ":finish"
+			if via != nil && viaBlock != nil && errEdge != nil && okEdge != nil {
+				// written-out finish: the undo statements count for a failure return when they lie on the failure edge of the
+				// build's error test and cannot be bypassed on the way to the truncation; for a success return they count
+				// when they are reachable from the success edge
+				undoAt := func(which string) []*ssa.BasicBlock {
+					var out []*ssa.BasicBlock
+					for _, ub := range tx.Blocks {
+						for _, ins := range ub.Instrs {
+							switch x := ins.(type) {
+							case *ssa.Store:
+								if _, typ, f, ok := fieldOf(x.Addr); which == "sd" && ok && typ == "tType" && f == "Sd" && isNilConst(x.Val) && strings.HasPrefix(path(x.Addr), "reflect.prefetchPendingTypes[") {
+									out = append(out, ub)
+								}
+							case *ssa.Call:
+								if which == "keys" && isBuiltin(x, "delete") && path(x.Call.Args[0]) == "reflect.prefetchStructDescCache" && strings.HasPrefix(path(x.Call.Args[1]), "reflect.prefetchPendingKeys[") {
+									out = append(out, ub)
+								}
+							}
+						}
+					}
+					return out
+				}
+				loopHead := func(ub *ssa.BasicBlock) *ssa.BasicBlock {
+					for h := ub; h != nil; h = h.Idom() {
+						if h != ub && blockReaches(ub, h) && h.Dominates(ub) {
+							return h
+						}
+					}
+					return ub
+				}
+				reachAvoiding := func(from, to, avoid *ssa.BasicBlock) bool {
+					seen := map[*ssa.BasicBlock]bool{}
+					st := []*ssa.BasicBlock{from}
+					for len(st) > 0 {
+						x := st[len(st)-1]
+						st = st[:len(st)-1]
+						if seen[x] || x == avoid {
+							continue
+						}
+						seen[x] = true
+						if x == to {
+							return true
+						}
+						st = append(st, x.Succs...)
+					}
+					return false
+				}
+				onFailure := func(which string) bool {
+					for _, ub := range undoAt(which) {
+						h := loopHead(ub)
+						if (errEdge == h || errEdge.Dominates(h)) && len(errEdge.Preds) == 1 && !reachAvoiding(errEdge, viaBlock, h) {
+							return true
+						}
+					}
+					return false
+				}
+				onSuccess := func(which string) bool {
+					for _, ub := range undoAt(which) {
+						if okEdge == ub || blockReaches(okEdge, ub) && !(errEdge == ub || errEdge.Dominates(ub)) {
+							return true
+						}
+					}
+					return false
+				}
+				e2 := jEffect{trunc: via.trunc}
+				if isErr || onErr {
+					e2.delKeys, e2.nilSd = onFailure("keys"), onFailure("sd")
+				} else {
+					e2.delKeys, e2.nilSd = onSuccess("keys"), onSuccess("sd")
+				}
+				via = &e2
+			}
 			switch {
 			case leak:
 				s.bad(key, c.InstrPos(ret), "a return after the build is reachable without emptying the journals: the journal of this build stays open and a later failed build rolls back (or a later success commits) the wrong entries")
@@ -929,6 +1047,9 @@ func ruleE3(c *Ctx) []Ob {
 					good = true
 				}
 				if mayTrunc[fn] && isTruncation(st.Val) {
+					good = true
+				}
+				if isTx[fn] && inlineFinBlocks[b] && isTruncation(st.Val) {
 					good = true
 				}
 				if isInitFn(fn) {
